@@ -422,6 +422,10 @@ func evalPrepared(c *evalCase, p *prepared) (outcome, string, error) {
 		st.KnownHit("C08-slash-star-ambiguity")
 		return discarded, "known-finding:C08-slash-star-ambiguity", nil
 	}
+	if len(c.Text)%5 == 0 {
+		// a failed compilation just before: one call's failure must not change the next call
+		safeBuild([]string{"1 +", "a[", "(", "f(1,", "'x"}[len(c.Text)/5%5])
+	}
 	g, berr := buildExpr(c.Text)
 	if berr != nil {
 		return judged, "", fmt.Errorf("BuildExpr(%q) rejected a valid expression: %v", c.Text, firstLine(berr.Error()))
